@@ -530,9 +530,12 @@ class RealizeMemrefCasts(RewritePattern):
         # insert "copy to" for first use as input
         # walk parent op in order to find first use as input
         assert op.parent
+        first_use: Operation | None = None
         for use_op in op.parent.walk():
             if use_op not in uses:
                 continue
+            # an earlier writer must not be overwritten by the copy: fill the buffer before its first use
+            first_use = first_use or use_op
             # check if input
             is_input = False
             if isinstance(use_op, linalg.GenericOp):
@@ -545,7 +548,7 @@ class RealizeMemrefCasts(RewritePattern):
             if is_input:
                 # insert copy op
                 copy_op = memref.CopyOp(source_op.source, op.dest)
-                rewriter.insert_op(copy_op, InsertPoint.before(use_op))
+                rewriter.insert_op(copy_op, InsertPoint.before(first_use))
                 break
 
         # insert "copy from" for last use as output
